@@ -164,7 +164,7 @@ def reference_summary(results):
 def read_table(path):
     import pandas as pd
 
-    return pd.read_csv(path, sep="\t", float_precision="round_trip")
+    return pd.read_csv(path, sep="\t", float_precision="round_trip", keep_default_na=False)
 
 
 def table_key(table, newick_str, data):
